@@ -98,8 +98,27 @@ pub struct Sync {
     pub now: u64,
 }
 
+/// A heartbeat in which only `slots` iterations of the announced-header loop of
+/// `insert_next_block_headers` fit under its instruction threshold (30e9): the mock counter starts at
+/// 30e9 - slots with step 1, which also means that ingestion has no budget at all in this message.
+fn emit_hb_slots(out: &mut Out, st: &mut Sync, slots: u64) -> bool {
+    out.emit(&format!("c hdrslots {}", slots), "-");
+    let trapped = emit_hb_inner(out, st, 0, Some(slots));
+    out.emit("c hdrslots 1000000000", "-");
+    trapped
+}
+
 fn emit_hb(out: &mut Out, st: &mut Sync, budget: u64) -> bool {
+    emit_hb_inner(out, st, budget, None)
+}
+
+fn emit_hb_inner(out: &mut Out, st: &mut Sync, budget: u64, slots: Option<u64>) -> bool {
     c::set_budget(budget);
+    if let Some(k) = slots {
+        can::verif_hooks::set_performance_counter_step(1);
+        can::verif_hooks::set_performance_counter(30_000_000_000 - k);
+        out.count("hb:header-slots");
+    }
     let mut f: Fut = Box::pin(can::heartbeat());
     let r = poll(&mut f);
     can::verif_hooks::set_performance_counter_step(0);
@@ -561,7 +580,12 @@ pub fn run_case(out: &mut Out, rng: &mut Rng, thorough: bool, case_no: u64) {
         let kind = if r < 40 { "hb" } else if r < 70 { "reply" } else if r < 76 { "upgrade" } else if r < 82 { "setcfg" } else if r < 90 { "call" } else if r < 94 { "sendtx" } else { "queries" };
         if r < 40 {
             let budget = if ingesting { rng.range(0, 4) } else if rng.chance(2, 3) { c::UNLIMITED } else { rng.range(0, 10) };
-            if emit_hb(out, &mut st, budget) {
+            // sometimes a heartbeat that has burnt so many instructions that only 0-3 iterations of
+            // the announced-header loop fit (more often when a response with headers is stored)
+            let has_next = can::with_state(|s| matches!(&s.syncing_state.response_to_process, Some(can::state::ResponseToProcess::Complete(r)) if !r.next.is_empty()));
+            let slots = if !ingesting && rng.chance(1, if has_next { 3 } else { 12 }) { Some(rng.range(0, 3)) } else { None };
+            let trapped = match slots { Some(k) => emit_hb_slots(out, &mut st, k), None => emit_hb(out, &mut st, budget) };
+            if trapped {
                 // a native panic leaves partial effects behind (no rollback): the rest of the native
                 // run corresponds to no IC execution, so the case ends here
                 out.count("case-cut-after-trap");
